@@ -32,6 +32,18 @@ var pureFunSpecs = []pfSpec{
 	{pkg: "x/market/keeper", recv: "Keeper", fn: "CalcAssetPrice", coq: "gen_market_CalcAssetPrice",
 		reads: []string{"GetAsset", "GetTwa"},
 		errs:  map[string]int{"assetTypes.ErrorAssetDoesNotExist": 3, "types.ErrorPriceNotActive": 10}},
+	// x/market/keeper/oracle.go (C17).  cell = the Twa record of the asset: read, rewritten and re-read
+	{pkg: "x/market/keeper", recv: "Keeper", fn: "CalculateTwa", coq: "gen_market_CalculateTwa"},
+	{pkg: "x/market/keeper", recv: "Keeper", fn: "UpdatePriceList", coq: "gen_market_UpdatePriceList",
+		cell: &pfCellSpec{get: "GetTwa", set: "SetTwa", keyField: "AssetID"}},
+	{pkg: "x/market/keeper", recv: "Keeper", fn: "GetLatestPrice", coq: "gen_market_GetLatestPrice",
+		reads: []string{"GetTwa"}, errs: map[string]int{"types.ErrorPriceNotActive": 1}},
+	// x/rewards/keeper/utils.go (C19), x/liquidationsV2/types/offset.go (C15, C09)
+	{pkg: "x/rewards/keeper", fn: "SplitTotalAmountPerEpoch", coq: "gen_rewards_SplitTotalAmountPerEpoch"},
+	{pkg: "x/liquidationsV2/types", fn: "GetSliceStartEndForLiquidations", coq: "gen_liquidationsV2_GetSliceStartEnd"},
+	// x/vault/keeper/vault.go (C03, C10)
+	{pkg: "x/vault/keeper", recv: "Keeper", fn: "GetAmountOfOtherToken", coq: "gen_vault_GetAmountOfOtherToken",
+		reads: []string{"GetAsset"}, errs: map[string]int{"assettypes.ErrorAssetDoesNotExist": 3}},
 	// x/liquidity/amm/util.go (C05).  reads = getters of the amm.Order interface = inputs
 	{pkg: "x/liquidity/amm", fn: "MatchableAmount", coq: "gen_amm_MatchableAmount",
 		reads: []string{"GetDirection", "GetOfferCoinAmount", "GetPaidOfferCoinAmount", "GetOpenAmount"}},
